@@ -60,6 +60,9 @@ def main(argv):
     prop = PROPERTIES[pid]
     t0 = time.time()
     obs = prop["obligations"](tier, seed)
+    only = os.environ.get("VERIF_ONLY")     # development aid: run a subset of the obligations (never used by the registered commands)
+    if only:
+        obs = [o for o in obs if any(x in o["id"] for x in only.split(","))]
     workers = int(os.environ.get("VERIF_JOBS", "0") or 0) or prop.get("jobs", 8)
     results = {}
     print("[%s/%s] %d obligations, %d workers, seed %d" % (pid, tier, len(obs), workers, seed), flush=True)
